@@ -116,6 +116,14 @@ fn run_cmd(m: &mut M, w: &[&str]) -> String {
             m.regs.insert(w[1].to_string(), id);
             idstr(id)
         }
+        "ghost" => {
+            // ghost G S : the id the arena itself reports for the node stored in the slot of S (also when that node is removed)
+            let s = m.r(w[2]);
+            let a = &m.arenas[m.cur];
+            let id = a.get_node_id(&a[s]).expect("node of this arena");
+            m.regs.insert(w[1].to_string(), id);
+            idstr(id)
+        }
         "copy" => {
             let id = m.r(w[2]);
             m.regs.insert(w[1].to_string(), id);
@@ -277,7 +285,7 @@ fn run_cmd(m: &mut M, w: &[&str]) -> String {
             let d: u8 = w[1].parse().unwrap();
             // chunks are separated by the two characters `|~|`, newlines are written as \n
             let t = w[2..].join(" ");
-            let chunks: Vec<String> = t.split("|~|").map(|c| c.replace("\\n", "\n")).collect();
+            let chunks: Vec<String> = t.split("|~|").map(|c| c.replace("\\n", "\n").replace("\\r", "\r")).collect();
             RENDER.with(|r| r.borrow_mut().insert(d, chunks));
             "()".into()
         }
